@@ -404,6 +404,7 @@ func TestHandler(t *testing.T) {
 						}
 					}
 					exp.LevelName = gotLevel
+					exp.QuotingNotJudged = true // quoting is C05's clause
 					prob = vlib.CheckLogfmtRecord(p, exp, !vlib.ProductionMode() && hasTopLevelError(vlib.Normalize(exp.Attrs)))
 				default:
 					txt := vlib.SimulateSGR(p).Text
@@ -535,6 +536,7 @@ func TestBridge(t *testing.T) {
 					if format == "json" {
 						prob = vlib.CheckJSONRecord(p, exp)
 					} else {
+						exp.QuotingNotJudged = true // quoting is C05's clause
 						prob = vlib.CheckLogfmtRecord(p, exp, false)
 					}
 					if prob != nil {
@@ -584,6 +586,7 @@ func TestBridge(t *testing.T) {
 				if format == "json" {
 					prob = vlib.CheckJSONRecord(p, exp)
 				} else {
+					exp.QuotingNotJudged = true // quoting is C05's clause
 					prob = vlib.CheckLogfmtRecord(p, exp, false)
 				}
 				if prob != nil {
